@@ -10,6 +10,9 @@ C12 driver: one JSON request per line on stdin, one JSON answer per line on stdo
          flags: "documented","scoped","accepted","clean","spec" (SpecTerm of the model's own result)
   {"op":"spec","expr":E,"leaves":[[text,ty],..],"obs":{"text":..,"declTy":..,"incs":[..]}|null}
       -> {"holds":b,"why":s}
+  {"op":"package","expr":E,"backend":"atlas"|"cms_aod"|"cms_miniaod","injects":[{"header_includes":[..],"body_includes":[..]}..],"hdrCalls":b}
+      -> {"files":[{"name":..,"incs":[..],"calls":b}..],"holds":b} | {"err":class}     (model: tr + packageFiles)
+  {"op":"pkgspec","files":[{"name":..,"incs":[..],"calls":b}..]} -> {"holds":b,"culprit":name|null}   (PackageSpec on observed files)
   E ::= {"k":"leaf","t":text,"ty":type} | {"k":"call","f":name,"args":[E..]}
       | {"k":"bin","op":astclass,"l":E,"r":E} | {"k":"un","op":astclass,"e":E}
 Run: lake env lean --run FaxVerif/C12/Driver.lean
@@ -148,6 +151,29 @@ def handle (line : String) : String :=
           | .error _ => pure none
         let (h, why) := SpecEmit cfg Gen.readmeFunctions leaves e obs
         pure (Json.mkObj [("holds", h), ("why", why)])
+      else if op == "package" then
+        let e ← parseExpr (← j.getObjVal? "expr")
+        let bk ← (← j.getObjVal? "backend").getStr?
+        let b : Backend := if bk == "atlas" then .atlas else if bk == "cms_aod" then .cmsAod else .cmsMiniaod
+        let mdsJ ← (← j.getObjVal? "injects").getArr?
+        let mds ← mdsJ.toList.mapM fun m => do
+          pure ({ headerIncs := ← strList (← m.getObjVal? "header_includes"), bodyIncs := ← strList (← m.getObjVal? "body_includes") } : Inject)
+        let hdrCalls ← (← j.getObjVal? "hdrCalls").getBool?
+        match tr cfg e with
+        | .ok v =>
+          let files := packageFiles b v.incs mds hdrCalls
+          pure (Json.mkObj [("files", Json.arr (files.map fun f => Json.mkObj [("name", f.name), ("incs", jstrs f.incs), ("calls", f.callsMath)]).toArray),
+            ("holds", PackageSpec files)])
+        | .error er => pure (Json.mkObj [("err", errClass er)])
+      else if op == "pkgspec" then
+        let fs ← (← j.getObjVal? "files").getArr?
+        let files ← fs.toList.mapM fun f => do
+          pure ({ name := ← (← f.getObjVal? "name").getStr?, incs := ← strList (← f.getObjVal? "incs"),
+                  callsMath := ← (← f.getObjVal? "calls").getBool? } : FileObs)
+        let culprit : Json := match packageCulprit files with
+          | some n => Json.str n
+          | none => Json.null
+        pure (Json.mkObj [("holds", PackageSpec files), ("culprit", culprit)])
       else throw s!"unknown op {op}"
     match r with
     | .ok j => j.compress
